@@ -25,7 +25,7 @@ class C12(Prop):
         "direction, inputs unmodified) and then once more under one metamorphic relation run on the implementation: idempotence, "
         "sorted input fixed, reversal with direction, positive affine map (dyadic a, b), weight rescaling, integer weights vs "
         "replication (mean, expectile), int64 / list / tuple containers with before/after comparison of the caller's objects. "
-        "'gpava_direct' = gpava(fun, y, w) itself with the weighted mean / lower quantile (exact) / scipy's expectile against the model's array program; 'pava_direct' = pava(y, w) itself (also with w=None) on integer data for which floats are exact, against the model's in-place array program (x and r bit for bit). All four functionals, both directions, levels dyadic. Non-trivial = some pooling and non-constant y; distinct = distinct "
+        "'own' = float64 arrays in both directions, the caller's y / weights read back against the store model isoMeanStore; 'gpava_direct' = gpava(fun, y, w) itself with the weighted mean / lower quantile (exact) / scipy's expectile against the model's array program; 'pava_direct' = pava(y, w) itself (also with w=None) on integer data for which floats are exact, against the model's in-place array program (x and r bit for bit). All four functionals, both directions, levels dyadic. Non-trivial = some pooling and non-constant y; distinct = distinct "
         "(functional, level, direction, y, w, relation)."
     )
     assumptions = ["float rounding outside the model; affine maps and weight factors are dyadic so that they are exact in floats"]
@@ -38,6 +38,12 @@ class C12(Prop):
             yield {"stream": "pava_direct", "f": "mean", "level": "1/2", "inc": True,
                    "y": [str(rng.randint(-2, 4) * L) for _ in range(n)],
                    "w": None if rng.random() < 0.3 else [str(rng.randint(1, 3)) for _ in range(n)]}
+        for k in range(200 if tier == "quick" else 4000):
+            # ownership: float64 arrays (the dtype for which a no-copy astype would hand back the caller's own object), both
+            # directions; the caller's y / weights read back after the call against the store model (isoMeanStore)
+            n = rng.randint(1, 8)
+            yield {"stream": "own", "f": "mean", "level": "1/2", "inc": rng.random() < 0.5,
+                   "y": [str(rng.randint(-2, 4) * L) for _ in range(n)], "w": [str(rng.randint(1, 3)) for _ in range(n)]}
         for k in range(300 if tier == "quick" else 6000):
             # gpava(fun, y, w) itself, called directly, against the model's in-place array program (MD/Model/GpavaArr.lean):
             # weighted mean and lower quantile exactly (integer data), expectile (scipy's root finder) with tolerance
@@ -151,7 +157,21 @@ class C12(Prop):
         return {"x": [float(v) for v in x], "r": [int(v) for v in r],
                 "unchanged": bool(np.array_equal(y, y0) and (w is None or np.array_equal(w, w0)))}
 
+    def impl_own(self, case):
+        from model_diagnostics._utils.isotonic import isotonic_regression
+
+        y = np.array([float(Fraction(v)) for v in case["y"]])
+        w = np.array([float(Fraction(v)) for v in case["w"]])
+        try:
+            x, r = isotonic_regression(y, w, increasing=case["inc"], functional="mean")
+        except Exception as e:
+            return {"err": exc_class(e), "msg": str(e)[:200]}
+        return {"x": [float(v) for v in x], "r": [int(v) for v in r], "y_after": [float(v) for v in y], "w_after": [float(v) for v in w],
+                "mutated": False}
+
     def impl(self, case):
+        if case["stream"] == "own":
+            return self.impl_own(case)
         if case["stream"] == "pava_direct":
             return self.impl_pava(case)
         if case["stream"] == "gpava_direct":
@@ -207,6 +227,8 @@ class C12(Prop):
     def model_request(self, case):
         if case["stream"] == "pava_direct":
             return {"op": "pava_arr", "y": case["y"], "w": case["w"] or ["1"] * len(case["y"])}
+        if case["stream"] == "own":
+            return {"op": "iso_own", "y": case["y"], "w": case["w"], "inc": case["inc"]}
         if case["stream"] == "gpava_direct":
             return {"op": "gpava_arr", "f": case["g"], "level": case["level"], "y": case["y"], "w": case["w"] or ["1"] * len(case["y"])}
         return ic.iso_request(case)
@@ -214,6 +236,13 @@ class C12(Prop):
     def compare(self, case, io, mo):
         if "skip" in io:
             return None
+        if case["stream"] == "own":
+            if "err" in io:
+                return f"valid input rejected with {io['err']}: {io.get('msg')}"
+            for key, what in (("y_after", "y"), ("w_after", "weights")):
+                if [Fraction(v) for v in io[key]] != [Fraction(v) for v in mo[key]]:
+                    return f"the caller's {what} after the call: {io[key]}, model (ownership) {[float(Fraction(v)) for v in mo[key]]}"
+            return ic.compare_xr(io, mo, exact=True)
         if case["stream"] == "gpava_direct":
             if case["g"] == "expectile":
                 return ic.compare_xr(io, mo, exact=False, tol=1e-7, scale=ic.data_scale(case), ylocal=case["y"])
@@ -231,6 +260,10 @@ class C12(Prop):
             return None
         if "err" in io:
             return f"valid input rejected with {io['err']}"
+        if case["stream"] == "own":
+            if io["y_after"] != [float(Fraction(v)) for v in case["y"]] or io["w_after"] != [float(Fraction(v)) for v in case["w"]]:
+                return "isotonic_regression modified its input arrays"
+            return ic.contract_oracle(case, io, 1e-9)
         if case["stream"] in ("pava_direct", "gpava_direct"):
             if not io["unchanged"]:
                 return "pava / gpava modified its input arrays"
